@@ -135,6 +135,9 @@ pub fn child(op: &str, input: &[u8]) -> Option<String> {
 }
 
 fn guarded_line(op: &str, input: &[u8]) -> (String, Result<(), String>) {
+    // enough witnesses of a decoder that does not return: the rest of the run is not executed (and shows up as a
+    // divergence from the model, not as a property failure)
+    if crate::childrun::hangs() >= crate::childrun::MAX_HANGS { return ("NOT-RUN-AFTER-HANGS".into(), Ok(())); }
     match guarded(op, input) {
         Outcome::Value(v) => (v, Ok(())),
         Outcome::Panic(p) => ("PANIC".into(), Err(format!("{op} panicked: {p}"))),
@@ -286,7 +289,119 @@ pub fn run(cfg: &Cfg) {
             one(&mut out, &["dcp", a, &hx(&z)]);
         }
     }
+    // ---- crafted frame headers: every descriptor byte, with size fields that declare far more than is present
+    for a in ["gzip:-", "zlib:-", "zstd:-", "lz4:-", "brg:-"] {
+        for z in crafted_headers(a, cfg.tier == Tier::Thorough) {
+            out.stat("dcp_crafted_header");
+            one(&mut out, &["dcp", a, &hx(&z)]);
+        }
+    }
     out.finish();
+}
+
+/// xxHash32 of a short input (the LZ4 frame descriptor checksum is its second byte)
+fn xxh32_short(d: &[u8]) -> u32 {
+    const P1: u32 = 2654435761; const P2: u32 = 2246822519; const P3: u32 = 3266489917; const P4: u32 = 668265263; const P5: u32 = 374761393;
+    assert!(d.len() < 16);
+    let _ = (P1, P2);
+    let mut h: u32 = P5.wrapping_add(d.len() as u32);
+    let mut i = 0;
+    while i + 4 <= d.len() { let w = u32::from_le_bytes([d[i], d[i + 1], d[i + 2], d[i + 3]]); h = h.wrapping_add(w.wrapping_mul(P3)).rotate_left(17).wrapping_mul(P4); i += 4; }
+    while i < d.len() { h = h.wrapping_add((d[i] as u32).wrapping_mul(P5)).rotate_left(11).wrapping_mul(P1); i += 1; }
+    h ^= h >> 15; h = h.wrapping_mul(P2); h ^= h >> 13; h = h.wrapping_mul(P3); h ^= h >> 16;
+    h
+}
+
+/// declared sizes a decoder must not trust: all ones, 2^40, 2^63, 2^34 (little endian), and a small honest one
+fn size_fields() -> Vec<Vec<u8>> {
+    vec![vec![0xff; 8], (1u64 << 40).to_le_bytes().to_vec(), (1u64 << 63).to_le_bytes().to_vec(), (1u64 << 34).to_le_bytes().to_vec(), 5u64.to_le_bytes().to_vec()]
+}
+
+fn crafted_headers(a: &str, thorough: bool) -> Vec<Vec<u8>> {
+    let mut v: Vec<Vec<u8>> = vec![];
+    let seconds: Vec<u8> = if thorough { (0..=255u8).collect() } else { vec![0x00, 0x01, 0x40, 0x70, 0x80, 0xff] };
+    let raw_block = [0x29u8, 0x00, 0x00, b'h', b'e', b'l', b'l', b'o']; // zstd: last raw block of 5 bytes
+    match &a[..3] {
+        "zst" => {
+            // magic, frame header descriptor (all 256: content-size flag, single segment, checksum, dict id), window, sizes
+            for fhd in 0..=255u8 {
+                for w in &seconds {
+                    for sz in size_fields() {
+                        for tail in [&[][..], &raw_block[..]] {
+                            let mut z = vec![0x28, 0xb5, 0x2f, 0xfd, fhd];
+                            if fhd & 0x20 == 0 { z.push(*w); }
+                            let fcs = match fhd >> 6 { 0 => if fhd & 0x20 != 0 { 1 } else { 0 }, 1 => 2, 2 => 4, _ => 8 };
+                            let did = [0usize, 1, 2, 4][(fhd & 3) as usize];
+                            z.extend(std::iter::repeat(0).take(did));
+                            z.extend_from_slice(&sz[8 - fcs..]);
+                            z.extend_from_slice(tail);
+                            v.push(z);
+                        }
+                        if fhd & 0x20 != 0 { break; }
+                    }
+                    if fhd & 0x20 != 0 { break; }
+                }
+            }
+        }
+        "lz4" => {
+            // magic, FLG (version 01: all 64), BD (block size 4..7 and junk), content size, correct header checksum
+            for flg in 0x40..=0x7fu8 {
+                for bd in [0x40u8, 0x50, 0x60, 0x70, 0x00, 0xf0] {
+                    for sz in size_fields() {
+                        let mut d = vec![flg, bd];
+                        if flg & 0x08 != 0 { d.extend_from_slice(&sz); }
+                        if flg & 0x01 != 0 { d.extend_from_slice(&[1, 0, 0, 0]); }
+                        let hc = (xxh32_short(&d) >> 8) as u8;
+                        for tail in [&[][..], &[0, 0, 0, 0][..], &[5, 0, 0, 0x80, b'h', b'e', b'l', b'l', b'o', 0, 0, 0, 0][..]] {
+                            let mut z = vec![0x04, 0x22, 0x4d, 0x18];
+                            z.extend_from_slice(&d); z.push(hc); z.extend_from_slice(tail);
+                            v.push(z);
+                        }
+                        if flg & 0x08 == 0 { break; }
+                    }
+                }
+            }
+        }
+        "gzi" => {
+            // magic, method, every flag byte, then header fields that declare lengths (FEXTRA xlen), ISIZE trailers
+            for flg in 0..=255u8 {
+                for xlen in [[0u8, 0], [0xff, 0xff], [5, 0]] {
+                    let mut z = vec![0x1f, 0x8b, 0x08, flg, 0, 0, 0, 0, 0, 0xff];
+                    z.extend_from_slice(&xlen);
+                    z.extend_from_slice(&[0x03, 0x00]); // empty final deflate block
+                    z.extend_from_slice(&[0, 0, 0, 0, 0xff, 0xff, 0xff, 0xff]); // crc, ISIZE = 2^32-1
+                    v.push(z);
+                }
+            }
+        }
+        "zli" => {
+            for cmf in 0..=255u8 {
+                for flg in &seconds {
+                    let mut z = vec![cmf, *flg];
+                    z.extend_from_slice(&[0x03, 0x00, 0, 0, 0, 1]);
+                    v.push(z);
+                }
+                // the FLG that makes the header check pass
+                let rem = ((cmf as u16) << 8) % 31;
+                let flg = ((31 - rem) % 31) as u8;
+                v.push(vec![cmf, flg, 0x03, 0x00, 0, 0, 0, 1]);
+                v.push(vec![cmf, flg | 0x20, 0xff, 0xff, 0xff, 0xff, 0x03, 0x00]);
+            }
+        }
+        _ => {
+            // brotli: window bits / large-window prefixes and first meta-block headers declaring up to 2^24.. bytes
+            for b0 in 0..=255u8 {
+                for b1 in &seconds {
+                    for tail in [&[][..], &[0xff, 0xff, 0xff, 0xff][..], &[0x00, 0x00, 0x03][..]] {
+                        let mut z = vec![b0, *b1];
+                        z.extend_from_slice(tail);
+                        v.push(z);
+                    }
+                }
+            }
+        }
+    }
+    v
 }
 
 fn one(out: &mut Out, t: &[&str]) {
